@@ -139,6 +139,10 @@ class CreateCheck:
             "reference BEP 52 model: two independent formulations asserted "
             "equal on every file hashed",
         ]
+        self.nontrivial_rule = (
+            "a world is non-trivial if its payload is not empty; a fault "
+            "exploration run if a fault was injected; counted = distinct such "
+            "worlds / choice vectors")
         self.rule = (
             "nested product: scale x piece length x shape x size vector "
             "(boundary alphabet in R, every integer size in S) [x creator]; a "
@@ -687,6 +691,8 @@ class CreateCheck:
             res.evals += 1
             res.validated += 1
             dev = [lab for c, (n, lab) in zip(run.choices, run.points) if c]
+            if dev:
+                res.extra["nontrivial"] += 1
             what = (dev[0].split(":")[0] if dev else "no-fault")
             probs = []
             if outcome == "returned":
@@ -743,6 +749,8 @@ class CreateCheck:
             obs, trans = self.observe(w, seed, cli=g.get("cli", False),
                                       listing=g.get("listing", "native"))
             res.states += 1
+            if sum(sizes) > 0:
+                res.extra["nontrivial"] += 1
             res.transitions += trans
             res.evals += trans
             res.validated += len(obs)
